@@ -43,10 +43,6 @@ def serdes_interp(keep=()):
     for nm in ("dateparse", "isoformat", "unixtime"):
         if nm not in keep:
             I.stubs.pop(f"typelib.serdes.{nm}", None)
-    I.stubs["typelib.serdes._duration_isoformat"] = Stub(
-        "serdes._duration_isoformat",
-        lambda I, path, a, k: uw.call_uf(I, path, "serdes._duration_isoformat", a, k, may_raise=False),
-        "serdes._duration_isoformat: the duration writer (proved in part 1 of this check)")
     # text slicing: an uninterpreted function of (text, lo, hi)
     def slice_hook(I, path, obj, lo, hi):
         if isinstance(obj, SV):
@@ -75,15 +71,26 @@ def _all(chk, func, names, pid, hy, goal, meta=None):
 
 # ----------------------------------------------------------------------------- serdes.isoformat
 def isoformat_dispatch(chk):
+    """Dates, datetimes and times are written by their own isoformat() - and on the way there the value never passes
+    through an equality-keyed cache (aware datetimes / times that denote the same instant at different UTC offsets are
+    equal and hash alike, so a memoised function would hand one of them the other's text).  Durations: part 1."""
     I = serdes_interp()
     func = f"{SER}.isoformat"
-    names = ["dates-and-times-are-written-by-their-own-isoformat", "everything-else-goes-to-the-proved-duration-writer"]
+    names = ["dates-and-times-are-written-by-their-own-isoformat",
+             "dates-and-times-never-pass-through-an-equality-keyed-cache"]
+    memo = {"cur": []}
+    I.hooks["memo_call"] = lambda I, path, f, args, kwargs: memo["cur"].append(f.qualname)
 
     def mk(I, path):
+        memo["cur"] = cur_memo = []
         for k in TEMPORAL:
             cls_const(k)
         dt = path.fresh("dt")
-        return [SV(dt)], {}, {"dt": dt}
+        own = z3.Or(sub(cls_of(dt), cls_const(datetime.date)), sub(cls_of(dt), cls_const(datetime.time)))
+        path.assume(own)
+        return [SV(dt)], {}, {"dt": dt, "memo": cur_memo}
+    mod, chain, node = I.src.find_def(func)
+    self_memoised = any("cache" in ast.unparse(d) for d in node.decorator_list)
     for pi, (path, out, obls, writes, cur) in enumerate(I.run_function(func, mk)):
         pid, hy = f"p{pi}", path.hyps + class_axioms()
         dt = cur["dt"]
@@ -91,9 +98,9 @@ def isoformat_dispatch(chk):
             _all(chk, func, names, pid, hy, z3.BoolVal(False), {"outcome": out.kind, "engine": str(out.value)[:200]})
             continue
         r = to_val(out.value)
-        own = z3.Or(sub(cls_of(dt), cls_const(datetime.date)), sub(cls_of(dt), cls_const(datetime.time)))
-        chk.add(Ob(func, names[0], pid, hy + [own], r == exp_call("method.isoformat", [SV(dt)])))
-        chk.add(Ob(func, names[1], pid, hy + [z3.Not(own)], r == exp_call("serdes._duration_isoformat", [SV(dt)])))
+        chk.add(Ob(func, names[0], pid, hy, r == exp_call("method.isoformat", [SV(dt)])))
+        chk.add(Ob(func, names[1], pid, hy, z3.BoolVal(not cur["memo"] and not self_memoised),
+                   {"memoised_on_the_way": list(cur["memo"]) + (["isoformat itself"] if self_memoised else [])}))
     chk.trusted.update(I.assumed_used)
 
 
@@ -413,22 +420,23 @@ def cast_unmarshaller(chk):
 
 
 def _covers(chk, before):
-    """Vacuity guard: for every clause added since `before`, the hypotheses of at least one of its non-trivial paths are
-    satisfiable (a contradictory precondition would discharge everything)."""
+    """Vacuity guard: for every clause added since `before`, the hypotheses of at least one of its paths are satisfiable
+    (a contradictory precondition would discharge everything).  A clause that already fails outright (goal `False`)
+    needs no cover: it is reported as what it is."""
     from pyvc.driver import discharge
     seen = {}
-    for ob in chk.obs[before:]:
-        if ob.expect != "unsat" or ob.meta.get("trivial") or ob.key in seen:
-            continue
-        if z3.is_false(ob.goal) if z3.is_expr(ob.goal) else False:
+    obs = [ob for ob in chk.obs[before:] if ob.expect == "unsat" and not ob.meta.get("trivial")]
+    failing = {ob.key for ob in obs if z3.is_expr(ob.goal) and z3.is_false(ob.goal)}
+    for ob in obs:
+        if ob.key in seen or ob.key in failing:
             continue
         c = Ob(ob.func, "cover:" + ob.clause, ob.path_id, ob.hyps, z3.BoolVal(True), expect="sat")
         discharge(c)
         if c.result == "sat":
             seen[ob.key] = True
             chk.add(c)
-    for ob in chk.obs[before:]:
-        if ob.expect == "unsat" and ob.key not in seen and not ob.meta.get("trivial"):
+    for ob in obs:
+        if ob.key not in seen and ob.key not in failing:
             seen[ob.key] = False
             chk.add(Ob(ob.func, "cover:" + ob.clause, "none", [z3.BoolVal(False)], z3.BoolVal(True), expect="sat"))
 
